@@ -101,7 +101,14 @@ Definition bvl_compatb (a b : list bv) : bool :=
   list_eqb (fun x y => (length x =? length y) && forallb (fun p => compatb (fst p) (snd p)) (combine x y)) a b.
 Definition bvl_eqb (a b : list bv) : bool := list_eqb bv_eqb a b.
 
+(* what is demanded of the two pin valuations:
+   MStrict : identical (including which bits are undefined)           -- decoration twins as constructed (C11)
+   MRefine : property C01: compatible, and identical while A's run has been free of undefined values
+   MCompat : never contradict                                           -- two refinements of one design (C11) *)
+Inductive cmode := MStrict | MRefine | MCompat.
+
 Section Product.
+Variable mode : cmode.
 Variable nl1 nl2 : netlist.
 
 Definition obs (s : pstate) (ins : list bv) : bool * bool :=
@@ -110,7 +117,11 @@ Definition obs (s : pstate) (ins : list bv) : bool * bool :=
   let o1 := outputs nl1 v1 in
   let o2 := outputs nl2 v2 in
   let clean' := pclean s && ins_def ins && vals_def v1 in
-  (bvl_compatb o1 o2 && (if clean' then bvl_eqb o1 o2 else true), clean').
+  (match mode with
+   | MStrict => bvl_eqb o1 o2
+   | MRefine => bvl_compatb o1 o2 && (if clean' then bvl_eqb o1 o2 else true)
+   | MCompat => bvl_compatb o1 o2
+   end, clean').
 
 Definition pnext (evs : list event) (s : pstate) (ins : list bv) : pstate :=
   mk_pstate (apply_events nl1 ins (p1 s) evs) (apply_events nl2 ins (p2 s) evs) (snd (obs s ins)).
@@ -198,26 +209,53 @@ Proof.
   - apply IH. apply andb_prop in H as [_ H]. exact H.
 Qed.
 
-Theorem cert_sound layers :
-  check_cert layers = true ->
-  forall t, Forall2 bv_compat (out_at nl1 sc sigma t) (out_at nl2 sc sigma t) /\
-            (clean_upto t = true -> out_at nl2 sc sigma t = out_at nl1 sc sigma t).
+Lemma cert_obs layers :
+  check_cert layers = true -> forall t, fst (obs (pstate_at t) (sigma t)) = true.
 Proof.
   intros H t. assert (Hin := cert_invariant layers H t).
   unfold check_cert in H. apply andb_prop in H as [_ Hsteps].
   assert (Hc := layer_step layers t Hsteps). unfold check_set in Hc.
   rewrite forallb_forall in Hc. specialize (Hc _ Hin). rewrite forallb_forall in Hc.
   specialize (Hc (sigma t) (all_ins_complete _ _ (Hsig t))).
-  apply andb_prop in Hc as [Ho _]. unfold obs in Ho. simpl in Ho.
+  apply andb_prop in Hc as [Ho _]. exact Ho.
+Qed.
+
+Lemma clean_flag t :
+  clean_upto t = true ->
+  (match t with O => true | S t' => clean_upto t' end) && ins_def (sigma t) &&
+  vals_def (comb_eval nl1 (state_at nl1 sc sigma t) (sigma t)) = true.
+Proof.
+  intro Hclean. destruct t; simpl in Hclean |- *.
+  - rewrite andb_true_r in Hclean. exact Hclean.
+  - apply andb_prop in Hclean as [Ha Hb]. rewrite Hb. simpl. exact Ha.
+Qed.
+
+Theorem cert_sound layers :
+  mode = MRefine -> check_cert layers = true ->
+  forall t, Forall2 bv_compat (out_at nl1 sc sigma t) (out_at nl2 sc sigma t) /\
+            (clean_upto t = true -> out_at nl2 sc sigma t = out_at nl1 sc sigma t).
+Proof.
+  intros Hm H t. assert (Ho := cert_obs layers H t). unfold obs in Ho. rewrite Hm in Ho. simpl in Ho.
   apply andb_prop in Ho as [Hcompat Heq]. split.
   - apply bvl_compatb_sound. exact Hcompat.
-  - intro Hclean. unfold out_at, vals_at.
-    assert (Hcl : (match t with O => true | S t' => clean_upto t' end) && ins_def (sigma t) &&
-                  vals_def (comb_eval nl1 (state_at nl1 sc sigma t) (sigma t)) = true).
-    { destruct t; simpl in Hclean |- *.
-      - rewrite andb_true_r in Hclean. exact Hclean.
-      - apply andb_prop in Hclean as [Ha Hb]. rewrite Hb. simpl. exact Ha. }
-    rewrite Hcl in Heq. symmetry. apply (list_eqb_eq _ bv_eqb_eq). exact Heq.
+  - intro Hclean. unfold out_at, vals_at. rewrite (clean_flag t Hclean) in Heq.
+    symmetry. apply (list_eqb_eq _ bv_eqb_eq). exact Heq.
+Qed.
+
+Theorem cert_sound_strict layers :
+  mode = MStrict -> check_cert layers = true ->
+  forall t, out_at nl2 sc sigma t = out_at nl1 sc sigma t.
+Proof.
+  intros Hm H t. assert (Ho := cert_obs layers H t). unfold obs in Ho. rewrite Hm in Ho. simpl in Ho.
+  symmetry. apply (list_eqb_eq _ bv_eqb_eq). exact Ho.
+Qed.
+
+Theorem cert_sound_compat layers :
+  mode = MCompat -> check_cert layers = true ->
+  forall t, Forall2 bv_compat (out_at nl1 sc sigma t) (out_at nl2 sc sigma t).
+Proof.
+  intros Hm H t. assert (Ho := cert_obs layers H t). unfold obs in Ho. rewrite Hm in Ho. simpl in Ho.
+  apply bvl_compatb_sound. exact Ho.
 Qed.
 
 End Product.
